@@ -145,12 +145,14 @@ def waitLoop (cfg : Cfg) (H : Time) : Nat → St → St
       if replyAt ≤ H then waitLoop cfg H k (deliver cfg { st with now := replyAt }) else st
     | _ => st
 
-def waitFuel : Nat := 2000
+/-- awaits allowed during a wait of `d` ms (generous: a renewal round per 125 ms; only a run that
+    stops advancing virtual time exhausts it) -/
+def waitFuel (d : Nat) (st : St) : Nat := (d / 125 + 64) * (st.subs.length + 2)
 
 def doWait (cfg : Cfg) (d : Nat) (st : St) : St :=
   if st.halted then st else
   let H := st.now + (d : Int)
-  let st := waitLoop cfg H waitFuel st
+  let st := waitLoop cfg H (waitFuel d st) st
   if st.halted then st else St.snap { st with now := H }
 
 /-- `asyncio.gather(*(self._async_unsubscribe_service(sid) for sid in sids))`: every routed SID is
@@ -172,9 +174,17 @@ def unsubscribeServices (st : St) : St :=
   let (st, m) := unsubAll sids { st with subs := [], task := .none }
   { st with now := st.now + (m : Int) }
 
-def doUnsub (st : St) : St :=
+/-- a task created by the previous caller operation runs its first step before the next caller
+    operation does (its first step was queued first) -/
+def settle (cfg : Cfg) (st : St) : St :=
+  match st.task with
+  | .fresh => runHead cfg (headFuel st) st
+  | _ => st
+
+def doUnsub (cfg : Cfg) (st : St) : St :=
   if st.halted then st else
-  let st := st.emit (.call st.now .unsub)
+  let st := settle cfg (st.emit (.call st.now .unsub))
+  if st.halted then st else
   let st := unsubscribeServices st
   St.snap (st.emit (.ret st.now .unsub none))
 
@@ -214,7 +224,7 @@ deriving DecidableEq, Repr, Inhabited
 def step (cfg : Cfg) (n : Nat) (st : St) : Op → St
   | .sub auto => doSub cfg n auto st
   | .wait d => doWait cfg d st
-  | .unsub => doUnsub st
+  | .unsub => doUnsub cfg st
 
 def init (script : List Entry) (dflt : Entry) : St := { script, dflt }
 
